@@ -37,6 +37,15 @@ type ack struct {
 	idx int64
 	ts  int64
 	src string
+	// epoch is the cache lifetime in which the acknowledgement was given.
+	epoch int
+}
+
+type admission struct {
+	spec string
+	key  string
+	e    *PendingLogEntry
+	src  string // sequencer, pool, cache, ...
 }
 
 type monitor struct {
@@ -56,10 +65,16 @@ type monitor struct {
 	rendered map[int64]map[string][]byte
 	// checkC04 enables the per-operation storage audit (costly at large sizes).
 	checkC04 bool
+	// admissions is every addLeafToPool call with its reported source (C07).
+	admissions []admission
+	// cacheEpoch counts cache losses: identical acknowledgements are required
+	// only within one cache lifetime.
+	cacheEpoch int
+	base       *baseTree
 }
 
 func newMonitor(w *world, base *baseTree) *monitor {
-	m := &monitor{w: w, truthOK: true, rendered: map[int64]map[string][]byte{}}
+	m := &monitor{w: w, truthOK: true, rendered: map[int64]map[string][]byte{}, base: base}
 	for _, e := range base.entries {
 		m.truth = append(m.truth, e)
 		m.hashes = append(m.hashes, verifmc.LeafHash(e.MerkleTreeLeaf()))
@@ -359,9 +374,44 @@ func (m *monitor) auditLocked(snap map[string][]byte, ci cpInfo) error {
 func (m *monitor) recordAck(e *PendingLogEntry, idx, ts int64, src string, snap map[string][]byte) {
 	m.mu.Lock()
 	defer m.mu.Unlock()
-	a := ack{key: entryKey(e), e: e, idx: idx, ts: ts, src: src}
+	a := ack{key: entryKey(e), e: e, idx: idx, ts: ts, src: src, epoch: m.cacheEpoch}
+	for _, o := range m.acks {
+		if o.key == a.key && o.epoch == a.epoch && (o.idx != a.idx || o.ts != a.ts) {
+			m.w.violate("C07", "entry %s was acknowledged with (index %d, timestamp %d) and again with (index %d, timestamp %d) within one cache lifetime", a.key, o.idx, o.ts, a.idx, a.ts)
+		}
+	}
 	m.acks = append(m.acks, a)
 	m.checkAckLocked(a, snap, "at the instant of the acknowledgement")
+}
+
+// admitted records one addLeafToPool call and the source it reported.
+func (m *monitor) admitted(spec string, e *PendingLogEntry, src string) {
+	m.mu.Lock()
+	m.admissions = append(m.admissions, admission{spec, entryKey(e), e, src})
+	m.mu.Unlock()
+}
+
+// checkAdmissionsLocked is the C07 leaf/admission correspondence: the leaves
+// added to the base tree are a sub-multiset of the submissions admitted with
+// source "sequencer" (each such admission yields at most one leaf; submissions
+// answered from a pool, the in-sequencing map or the cache never add one).
+func (m *monitor) checkAdmissionsLocked(leaves []*verifmc.RefEntry) {
+	avail := map[string]int{}
+	for _, a := range m.admissions {
+		if a.src == "sequencer" {
+			avail[string(refOf(a.e, 0, 0).MerkleTreeLeaf()[10:])]++
+		}
+	}
+	for i := len(m.base.entries); i < len(leaves); i++ {
+		l := *leaves[i]
+		l.Timestamp, l.Index = 0, 0
+		k := string(l.MerkleTreeLeaf()[10:])
+		if avail[k] == 0 {
+			m.w.violate("C07", "leaf %d does not correspond to any (remaining) submission admitted by the sequencer: it duplicates or invents an entry", i)
+			return
+		}
+		avail[k]--
+	}
 }
 
 func (m *monitor) checkAckLocked(a ack, snap map[string][]byte, when string) {
